@@ -25,6 +25,8 @@ COMMENTS = (
     '@robot frobnicate', 'hello world', 'thanks @robot',
     '@robot after_pull_request=1', '@robot after_pull_request=2',
     '@robot after_pull_request=99', '@robot: approve, unanimity',
+    # malformed options (answered with "incorrect command syntax")
+    '@robot after_pull_request', '/after_pull_request',
 )
 
 
@@ -39,7 +41,7 @@ class History:
         self.params = params
         shape = Shape(tuple(tuple(d) for d in params['devs']),
                       tuple(tuple(s) for s in params['stabs']),
-                      params['hotfix'])
+                      params['hotfix'], bool(params.get('rename')))
         self.world = World(scratch, shape, params['mode'],
                            settings=params.get('settings'),
                            cmd_line_options=params.get('options', ()))
@@ -171,6 +173,8 @@ class History:
             results.extend(self.apply_placed(step))
         elif op == 'rejected':
             results.extend(self.apply_rejected(step))
+        elif op == 'cmdfail':
+            results.extend(self.apply_cmdfail(step))
         elif op == 'fault':
             from vf.sim.faults import apply_fault
             apply_fault(self, step)
@@ -300,6 +304,28 @@ class History:
                 return [self.run(job, step)]
             finally:
                 clear_reject(self.world)
+        return self.on_snapshot(go) or []
+
+    def apply_cmdfail(self, step):
+        """Run step['job'] on a snapshot while its git command number
+        step['cmd'] fails (exit 1, as a transient error of that one
+        command); monitors judge it; the world is restored afterwards."""
+        import subprocess as sp
+
+        def failing(command, kw):
+            return sp.Popen('echo "fatal: injected failure" >&2; exit 1',
+                            **kw)
+
+        def go():
+            job = self.job_from(step['job'])
+            if job is None:
+                return []
+            self.injector.reset_plan()
+            self.injector.fail_cmd = (step['cmd'], failing)
+            try:
+                return [self.run(job, step)]
+            finally:
+                self.injector.reset_plan()
         return self.on_snapshot(go) or []
 
     def apply_placed(self, step):
@@ -578,8 +604,13 @@ def st_params(draw, modes=('queue', 'skipqueue', 'noqueue'), stab_bias=False,
     opts = list(options or [])
     if draw(st.integers(0, 3)) == 0:
         opts.append('no_octopus')
+    # on the newest development branch the shared file may have been renamed
+    # (merges that must follow a rename are where octopus and consecutive
+    # merges part ways)
+    rename = len(devs) >= 2 and draw(st.integers(0, 3)) == 0
     return {'devs': [list(d) for d in devs], 'stabs': [list(s) for s in stabs],
-            'hotfix': hf, 'mode': mode, 'settings': settings, 'options': opts}
+            'hotfix': hf, 'mode': mode, 'settings': settings, 'options': opts,
+            'rename': rename}
 
 
 DEFAULT_WEIGHTS = {
@@ -701,8 +732,9 @@ def draw_step(data, hist, weights=None, max_prs=4):
         step = {'op': op, 'src': src, 'dst': dst,
                 'author': pick((AUTHOR, AUTHOR, AUTHOR2, ADMIN), 'author'),
                 'base_back': pick((0, 0, 0, 1), 'base_back')}
-        if data.draw(st.integers(0, 7), label='shared') == 0:
-            step['shared'] = data.draw(st.integers(0, 3), label='line')
+        if data.draw(st.integers(0, 7 if not hist.params.get('rename')
+                                 else 1), label='shared') == 0:
+            step['shared'] = data.draw(st.integers(0, 19), label='line')
         k = data.draw(st.integers(0, 9), label='origin')
         chain_ = [n_ for n_ in w.chain if n_ in heads]
         if k == 0 and dst in chain_ and chain_.index(dst) > 0:
